@@ -105,7 +105,9 @@ def cases(ctx):
             yield {"kind": "one", "form": fid, "cls": cls, "trail": trail, "rseed": rng.getrandbits(32),
                    "salt": first + rng.choice(["", "alt", "Z9", "saltForTest"]),
                    "quote": list(rng.choice(S.QUOTES)) if f["quote"] else ["", ""],
-                   "t7_any": rng.random() < 0.5, "u_is_secret": rng.random() < 0.2}
+                   "t7_any": rng.random() < 0.5, "u_is_secret": rng.random() < 0.2,
+                   # the format must hold for the n-th secret of a run as for the first
+                   "warm": rng.choice([0, 0, 0, 0, 0, 3, 12, 12, 30, 110 if rng.random() < 0.3 else 12, 1050 if rng.random() < 0.02 else 0])}
 
 
 def check_format(cls, orig, rep):
@@ -200,6 +202,11 @@ def check_case(ctx, case):
     line, parts, _ = S.render(rng, f, [s["text"] for s in secs], quote=tuple(case["quote"]), trail=case["trail"],
                               u_is_secret=case.get("u_is_secret", False) and cls in ("text", "numeric", "hex", "type7"))
     fa = nc.af.FileAnonymizer(anon_pwd=True, anon_ip=False, salt=case["salt"])
+    if case.get("warm"):
+        wr = random.Random(case["rseed"] ^ 0x5EED)
+        warm = "".join("username w%d password Wu%dq%dz\n" % (i, wr.getrandbits(40), i) for i in range(case["warm"]))
+        fa.anonymize_io(io.StringIO(warm), io.StringIO())
+        ctx.count("runs_with_earlier_secrets")
     out = io.StringIO()
     fa.anonymize_io(io.StringIO(line + "\n"), out)
     got = out.getvalue()
